@@ -58,6 +58,9 @@ Definition c_pipe : char := 124.
 Definition c_rbrace : char := 125.
 Definition c_tilde : char := 126.
 
+(* linear-time reversal (List.rev is quadratic); Proofs/BaseFacts.v: rev_fast l = rev l *)
+Definition rev_fast {A : Type} (l : list A) : list A := rev_append l [].
+
 Fixpoint str_eqb (a b : str) : bool :=
   match a, b with
   | [], [] => true
